@@ -233,7 +233,7 @@ fn p_thick(a: &[&str]) -> String {
 
 pub fn run(suite: &str, a: &[&str]) -> Option<String> {
     match suite {
-        "p_thick" => Some(p_thick(a)),
+        "p_thick_join" => Some(p_thick(a)),
         "join_poly_pixels" => {
             let v = pts(&a[3..]);
             let st = PrimitiveStyle::with_stroke(Rgb565::GREEN, u(a[0]));
